@@ -75,7 +75,9 @@ def run(res: C.Result):
             res.fail("global-generator", f"{c['driver']}: a global random function was called from the package during the run: {r['trips'][0]}", {"input": c, "observed": r["trips"]})
         if r["other"]["steps"] != a["steps"]:
             dist["different_seed_differs"] += 1
-        elif len(a["steps"]) >= 4 and c["driver"] not in ():
+        elif len(a["steps"]) >= 4 and len({(x["pos"], x["cell"], x["n"]) for x in a["steps"]}) > 1:
+            # (demanded only when the run shows its randomness at all: a program whose atoms are all fixed, or whose every trial is
+            #  vetoed, has one trajectory whatever the seed - see DESIGN.md Appendix A)
             res.fail("different-seeds-same-trajectory", f"{c['driver']}: seeds {c['seed']!r} and {c['other_seed']} give identical trajectories over {len(a['steps'])} steps", {"input": c})
     res.coverage.update(
         evaluations=ncases * 3, distinct_nontrivial=len(distinct),
